@@ -58,6 +58,7 @@ type World struct {
 	specFuns map[string]*PredDef
 	tableVals map[string]int64 // resolved constant names used in tables
 	loadSecs float64
+	reassigned map[string]bool
 }
 
 func loadWorld(repo string, patterns []string) (*World, error) {
